@@ -158,7 +158,12 @@ func (p *Parser) evaluateLine(l string) error {
 		return errors.New("invalid line")
 	}
 	// first we get the directive
-	dir, opts, _ := strings.Cut(l, " ")
+	// the directive name ends at the first blank; any further blanks before its
+	// arguments are separators, not part of the first argument
+	dir, opts := l, ""
+	if i := strings.IndexAny(l, " \t"); i >= 0 {
+		dir, opts = l[:i], strings.TrimLeft(l[i+1:], " \t")
+	}
 
 	p.options.WAF.Logger.Debug().Str("line", l).Msg("Parsing directive")
 	directive := strings.ToLower(dir)
